@@ -17,7 +17,7 @@ pub struct LexDump {
 pub fn lex_dump(src: &str) -> LexDump {
     let mut tokens = vec![];
     let mut error = None;
-    for item in Lexer::new(src) {
+    for item in lexer::Lexer::new(src) {
         match item {
             Ok(((sl, sc), tok, (el, ec))) => {
                 tokens.push((sl, sc, el, ec, format!("{tok:?}")));
@@ -38,23 +38,29 @@ pub enum ParseDump {
     Rejected{line: usize, col: usize, msg: String},
 }
 
+#[cfg(feature = "perr")]
+fn rejected<T: std::fmt::Debug>(e: ParseError<(usize, usize), Token, LexError>, _dbg: T) -> ParseDump {
+    let ((line, col), msg) = render_parse_error(e);
+    ParseDump::Rejected{line, col, msg}
+}
+
+// Without the repository's renderer only the fact of the rejection is known.
+#[cfg(not(feature = "perr"))]
+fn rejected<E: std::fmt::Debug, T>(e: E, _dbg: T) -> ParseDump {
+    ParseDump::Rejected{line: 0, col: 0, msg: format!("{e:?}")}
+}
+
 pub fn parse_dump(src: &str) -> ParseDump {
-    match ProgParser::new().parse(Lexer::new(src)) {
+    match parser::ProgParser::new().parse(lexer::Lexer::new(src)) {
         Ok(prog) => ParseDump::Tree(format!("{prog:?}")),
-        Err(e) => {
-            let ((line, col), msg) = render_parse_error(e);
-            ParseDump::Rejected{line, col, msg}
-        },
+        Err(e) => rejected(e, ()),
     }
 }
 
 pub fn parse_expr_dump(src: &str) -> ParseDump {
-    match parser::ExprParser::new().parse(Lexer::new(src)) {
+    match parser::ExprParser::new().parse(lexer::Lexer::new(src)) {
         Ok(e) => ParseDump::Tree(format!("{e:?}")),
-        Err(e) => {
-            let ((line, col), msg) = render_parse_error(e);
-            ParseDump::Rejected{line, col, msg}
-        },
+        Err(e) => rejected(e, ()),
     }
 }
 
@@ -64,6 +70,12 @@ pub fn parse_expr_dump(src: &str) -> ParseDump {
 // is a copy of the tail of `main()`, which cannot be called because it exits
 // the process; for that reason every disagreement found through this path is
 // re-confirmed through the real binary before it is reported.
+#[cfg(not(feature = "run"))]
+pub fn run_like_main(_raw_path: &str) -> (i32, String) {
+    (-2, "in-process run not available in this build\n".to_string())
+}
+
+#[cfg(feature = "run")]
 pub fn run_like_main(raw_path: &str) -> (i32, String) {
     let p = raw_path.to_string();
     let r = panic::catch_unwind(move || {
@@ -123,7 +135,7 @@ pub fn run_like_main(raw_path: &str) -> (i32, String) {
 pub fn lex_parse_nopanic(src: &str) -> Result<bool, String> {
     let s = src.to_string();
     let r = panic::catch_unwind(move || {
-        ProgParser::new().parse(Lexer::new(&s)).is_ok()
+        parser::ProgParser::new().parse(lexer::Lexer::new(&s)).is_ok()
     });
     r.map_err(|payload| {
         if let Some(s) = payload.downcast_ref::<&str>() {
